@@ -23,6 +23,7 @@ WALL = {
     "time.clock_gettime", "time.perf_counter_ns", "time.process_time",
 }
 ALLOW_WALL = {"redress.extras.http:_parse_retry_after": "an HTTP-date is wall-clock by definition; outside the deadline envelope"}
+ALLOW_WALL_SCOPE = "redress.extras"  # the package the legitimate use lives in (outside MONO_SCOPE by construction)
 
 
 def dotted(prog: Program, fi, e: ast.expr) -> str | None:
@@ -143,8 +144,8 @@ def run(rep: Report, prog: Program, tier: str) -> None:
                 if isinstance(n, ast.Attribute):
                     d = dotted(prog, fi, n)
                     if d in WALL:
-                        if fi.qual in ALLOW_WALL:
-                            hits_pos += 1
+                        if not in_scope and fi.module.name.startswith(ALLOW_WALL_SCOPE):
+                            hits_pos += 1  # positive example: the recogniser sees the one legitimate wall-clock use, wherever under redress.extras it lives
                             continue
                         if in_scope:
                             rep.instance("R2.1", f"wall|{fi.qual}|{d}")
@@ -158,7 +159,7 @@ def run(rep: Report, prog: Program, tier: str) -> None:
             else:
                 rep.ok("R2.1")
     if hits_pos < 1:
-        raise AnalysisError("R2.1 positive example (datetime.now in extras/http._parse_retry_after) no longer matches: recogniser out of date")
+        raise AnalysisError("R2.1 positive example (datetime.now in the Retry-After parser under redress.extras) no longer matches: recogniser out of date")
     mono = 0
     for fi in prog.funcs.values():
         if fi.module.name.startswith(MONO_SCOPE):
@@ -294,3 +295,12 @@ def run(rep: Report, prog: Program, tier: str) -> None:
                 else:
                     rep.fail("R2.6", f"writer|{fn.qual}|{n.attr}", f"{fn.qual} re-binds `{n.attr}` (the clock origin / deadline must not move during a run)", where=fn.where(n), function=fn.qual)
     rep.floor("R2.6", 5)
+    _foundations(rep, prog)
+
+
+def _foundations(rep: Report, prog: Program) -> None:
+    rep.rule("R2.7", "the clamped delay survives the hand-over: _RetryDecision and BackoffContext are transparent records (no __post_init__ / custom __init__ / shadowing property that could round, re-scale or replace sleep_s or remaining_s)")
+    from .foundations import records_transparent
+
+    records_transparent(rep, "R2.7", prog, ["redress.policy.state:_RetryDecision", "redress.strategies:BackoffContext"])
+    rep.floor("R2.7", 2)
